@@ -557,6 +557,42 @@ def r179(ctx):
         raise AnalysisError("R-17.9: no asyncio queue construction found in asyncrunner.py")
 
 
+def r1710(ctx):
+    """The exception of a failing unit is delivered whatever the exception is: in the handler of
+    the task body nothing that can itself raise precedes `future.set_exception(e)` (an index into
+    `e.args`, a formatting call, an attribute of an arbitrary exception...). A raise there leaves
+    the future pending for ever and ends the worker coroutine."""
+    rid = "R-17.10"
+    f = ctx.tree.func(ASYNC, "aiorunner._task_wrapper")
+    n = 0
+    for h in [x for x in walk_local(f) if isinstance(x, ast.ExceptHandler)]:
+        sets = [i for i, st in enumerate(h.body) if any(isinstance(c, ast.Call) and last_name(c) == "set_exception" for c in ast.walk(st))]
+        if not sets:
+            continue
+        n += 1
+        risky = None
+        for st in h.body[:sets[0]]:
+            for x in ast.walk(st):
+                if isinstance(x, ast.Subscript) and isinstance(x.ctx, ast.Load):
+                    risky = (x, "an index / key lookup")
+                elif isinstance(x, ast.Call) and not (isinstance(x.func, ast.Attribute) and isinstance(x.func.value, ast.Name) and x.func.value.id in ("logger", "logging")):
+                    risky = (x, "a call")
+                elif isinstance(x, (ast.BinOp, ast.JoinedStr)) and not isinstance(x, ast.Constant):
+                    risky = (x, "a formatting / arithmetic expression")
+                elif isinstance(x, (ast.Raise, ast.Assert)):
+                    risky = (x, "a raise")
+                if risky:
+                    break
+            if risky:
+                break
+        if risky:
+            ctx.bad(rid, risky[0], f"_task_wrapper evaluates `{short(risky[0], 40)}` ({risky[1]}) in the exception handler before future.set_exception(): if it raises (e.g. `e.args[0]` for an exception without arguments - a bare assert, `raise ValueError`), the unit's exception is never delivered, its future stays pending and the worker coroutine dies, so later units may never run and stop() spins", construct=f"_task_wrapper: {short(risky[0], 40)} before set_exception")
+        else:
+            ctx.ok(rid, h, "the handler delivers the exception before anything that can raise")
+    if n == 0:
+        raise AnalysisError("R-17.10: no exception handler that completes the future found in _task_wrapper")
+
+
 def run(ctx):
     ctx.rule("R-17.4", "completed jobs leave the in-flight record (removal before the commit; selector representation agrees with all filling sites)", floor=4)
     ctx.rule("R-17.6", "the restart file is refreshed completely at every commit: each [current] key write_toml maintains is stored on every path to the dump (a finished run persists an empty in-flight record)", floor=3)
@@ -573,6 +609,8 @@ def run(ctx):
     ctx.attempt(r177, ctx)
     ctx.rule("R-17.9", "submission cannot block: the work queue fed by awaited put() from submit_work's throw-away event loop is unbounded", floor=1)
     ctx.attempt(r179, ctx)
+    ctx.rule("R-17.10", "a failing unit's exception is delivered whatever it is: nothing that can raise precedes future.set_exception() in the handler", floor=1)
+    ctx.attempt(r1710, ctx)
     ctx.rule("R-17.8", "every consumed result is committed: each normal path through treat_output writes restart.toml, so the persisted step counter never lags the steps whose rows were appended (shared with C06 R-6.14 / C08 R-8.11)", floor=1)
     from .shared import commit_every_step
     ctx.attempt(commit_every_step, ctx, "R-17.8", " (the step counter on disk lags the data file: the restarted run performs more than the target number of steps in total)")
@@ -581,6 +619,9 @@ def run(ctx):
 
 
 VARIANTS = [
+    B("c17-handler-indexes-exception-args", "infretis/asyncrunner.py", "                    # Pass the exception up in the future\n                    future.set_exception(e)", "                    logger.error(\"Runner worker %s: task failed: %s\", taskID, e.args[0])\n                    future.set_exception(e)", "R-17.10", control=True, why="seeded C17_k"),
+    K("c17-keep-handler-logs-exception", "infretis/asyncrunner.py", "                    # Pass the exception up in the future\n                    future.set_exception(e)", "                    logger.error(\"Runner worker %s: task failed: %s\", taskID, e)\n                    future.set_exception(e)"),
+    K("c17-keep-handler-logs-after-delivery", "infretis/asyncrunner.py", "                    # Pass the exception up in the future\n                    future.set_exception(e)", "                    future.set_exception(e)\n                    logger.error(\"task failed: %s\", e.args)"),
     B("c17-work-queue-bounded", "infretis/asyncrunner.py", "asyncio.Queue()", "asyncio.Queue(maxsize=n_workers)", "R-17.9", control=True, why="seeded C17_j"),
     K("c17-keep-work-queue-explicitly-unbounded", "infretis/asyncrunner.py", "asyncio.Queue()", "asyncio.Queue(maxsize=0)"),
     B("c17-commit-only-when-printing", REPEX, "            self.print_shooted(md_items, pn_news)\n        # save for possible restart\n        self.write_toml()", "            self.print_shooted(md_items, pn_news)\n            # save for possible restart\n            self.write_toml()", "R-17.8", control=True, why="seeded C17_i"),
